@@ -377,7 +377,7 @@ LEADER_FORMS = ["sldr", "seq", "seqmode"]
 
 
 def seq_instance(name, defs, mode, T=3, always=False, leader=True, keys=("a", "b"), modcancel=True, qmax=2, bound=None,
-                 lform="sldr"):
+                 lform="sldr", leader2=None):
     """defs: list of item lists (definition i -> virtual key v<i+1> -> output key VK_OUT[i]).
     mode / T = the input mode and timeout IN FORCE when the leader is pressed (monitor parameters).  lform = how the
     leader is written: "sldr" (defcfg values), "seq" = (sequence T): timeout override, mode from defcfg,
@@ -395,6 +395,9 @@ def seq_instance(name, defs, mode, T=3, always=False, leader=True, keys=("a", "b
             layer["l"] = {"t": "raw", "text": "(sequence %d %s)" % (T, mode)}
             dc["sequence-timeout"] = T + 5
             dc["sequence-input-mode"] = MODES[(MODES.index(mode) + 1) % 3]
+    if leader2:      # (mode2, T2): a second leader key `m`, always written with both overrides
+        ks.insert(1, "m")
+        layer["m"] = {"t": "raw", "text": "(sequence %d %s)" % (leader2[1], leader2[0])}
     if always:
         dc["sequence-always-on"] = "yes"
     if not modcancel:
@@ -406,6 +409,8 @@ def seq_instance(name, defs, mode, T=3, always=False, leader=True, keys=("a", "b
     params = {"ldr": C("l") if leader else 0, "T": T, "mode": mode, "always": bool(always),
               "defs": [{"items": d, "out": C(VK_OUT[i])} for i, d in enumerate(defs)],
               "keys": [C(k) for k in keys]}
+    if leader2:
+        params["ldr2"] = {"c": C("m"), "mode": leader2[0], "T": leader2[1]}
     maxlen = max(sum(1 if it["t"] == "k" else len(it["ks"]) + len(it.get("mods", [])) for it in d) for d in defs)
     b = bound if bound is not None else maxlen + 1
     inst = {"name": "c12_" + name, "kbd": kbd, "keys": [C(k) for k in ks], "qmax": qmax,
@@ -437,6 +442,7 @@ def family(tier):
              {"keys": ("lsft", "a", "b"), "modcancel": False, "T": 2}),
             ("hs_T1", [ab], "hidden-suppressed", {"T": 1}),
             ("hd_T3", [ab, oab], "hidden-delay-type", {"T": 3, "lform": "seq"}),
+            ("hs_hd_2ldr", [ab, [K("b"), K("a")]], "hidden-suppressed", {"T": 3, "leader2": ("hidden-delay-type", 3)}),
             ("hs_seqmode", [ab, [K("b"), K("a")]], "hidden-suppressed", {"T": 2, "lform": "seqmode"}),
             ("vb_aga", [[M(["ralt"], ["a"])], [K("a"), K("ralt")]], "visible-backspaced", {"keys": ("ralt", "a"), "T": 2}),
             ("hd_ca", [[M(["lctl"], ["a"])], [K("lalt"), K("a")]], "hidden-delay-type", {"keys": ("lctl", "lalt", "a"), "T": 2}),
@@ -498,7 +504,7 @@ EXTENDS Naturals, Sequences, FiniteSets, TLC, Json
 E == INSTANCE SeqEnv
 Tables == %(tables)s
 VARIABLES t, ph
-Check(j) == PrintT(<<"HIST", ToJson([tb |-> j, sc |-> E!SeScripts(Tables[j].tb, Tables[j].lead, Tables[j].f,
+Check(j) == PrintT(<<"HIST", ToJson([tb |-> j, sc |-> E!SeScripts(Tables[j].tb, Tables[j].lead, Tables[j].re, Tables[j].f,
                                                                 Tables[j].waits, Tables[j].tail)])>>)
 Init == t = 0 /\ ph = 0
 Next == \/ ph = 0 /\ t = 0 /\ \E j \in DOMAIN Tables : t' = j /\ ph' = 0
@@ -605,11 +611,21 @@ def typing_histories(res, tier, rng, wd):
         lform = LEADER_FORMS[(i // 3) % 3] if i >= 2 else "sldr"
         codes = table_codes(t)
         names = [kname(c) for c in codes] + ["q"]
+        # every second table has a second leader `m` = (sequence T+1 <another mode>); it is pressed in the middle of
+        # sequences begun with the first leader and the other way round
+        l2 = None
+        if not always and i % 2 == 1:
+            l2 = (MODES[(MODES.index(mode) + 1 + (i // 2) % 2) % 3], T + 1)
         inst, params, kbd = seq_instance("h%d" % i, t, mode, T=T, always=always, leader=not always, keys=tuple(names),
-                                         lform=lform)
-        lead = [] if always else [["d", C("l")], ["t", 1], ["u", C("l")], ["t", 1]]
-        ent.append({"tb": t, "lead": lead, "f": C("q"), "waits": {T - 3, T - 2, T - 1}, "tail": T + 6})
+                                         lform=lform, leader2=l2)
+        tap = lambda k: [["d", C(k)], ["t", 1], ["u", C(k)], ["t", 1]]
+        lead = [] if always else tap("l")
+        base = {"tb": t, "f": C("q"), "waits": {T - 3, T - 2, T - 1}, "tail": T + 6}
+        ent.append(dict(base, lead=lead, re=tap("m") if l2 else lead))
         metas.append((kbd, params, t, mode, always))
+        if l2:
+            ent.append(dict(base, lead=tap("m"), re=tap("l")))
+            metas.append((kbd, params, t, mode, always))
     mod = "MC_C12H_%s" % tier
     with open(os.path.join(wd, mod + ".tla"), "w") as f:
         f.write(MC_H % dict(mod=mod, tables=tla_val(ent)))
@@ -620,8 +636,8 @@ def typing_histories(res, tier, rng, wd):
     hf = os.path.join(wd, mod + ".hist.ndjson")
     n = extract_prints(r["out"], "HIST", hf)
     os.remove(r["out"])
-    if n != len(tabs):
-        raise ToolError("%s: TLC exported histories for %d of %d tables" % (mod, n, len(tabs)))
+    if n != len(ent):
+        raise ToolError("%s: TLC exported histories for %d of %d tables" % (mod, n, len(ent)))
     res.states += r["distinct"] or 0
     res.transitions += r["generated"] or 0
     jobs, nscripts = [], 0
